@@ -23,6 +23,7 @@ inductive Body | none | deregSelf | deregOther
 
 inductive Op
   | reg (i : Nat) | dereg (i : Nat) | deregIfLive (i : Nat) | stop | waitAll
+  | waitReg (i : Nat)    -- block until the registration of callback i has returned
   deriving DecidableEq, Repr
 
 structure Config where
@@ -47,6 +48,7 @@ structure Cb where
   freed : Bool         -- history: the destructor has returned
   sawStop : Bool       -- history: stop was requested while this callback was registered
   unlinked : Bool      -- history: its deregistration removed it from the list before any notifier took it
+  regd : Bool          -- history: its registration (constructor) has returned
   deriving DecidableEq, Repr
 
 structure Thr where
@@ -68,7 +70,7 @@ structure St where
                        -- while the callback was running
   deriving DecidableEq, Repr
 
-def Cb.init : Cb := ⟨false, false, false, false, false, 0, 0, false, false, false⟩
+def Cb.init : Cb := ⟨false, false, false, false, false, 0, 0, false, false, false, false⟩
 
 def init (cfg : Config) : St :=
   { stopReq := false, locked := false, list := [], notifier := 0,
@@ -124,6 +126,7 @@ def stepThr (cfg : Config) (s : St) (t : Nat) : Option (Lbl × St) :=
         else some (ev t s!"dereg{i}.begin", push s1 t ⟨1, i, 0⟩)
       | .stop => some (ev t "stop.begin", push s1 t ⟨2, 0, 1⟩)
       | .waitAll => if allOthersDone cfg s t then some (tau t, s1) else none
+      | .waitReg i => if (getCb s i).regd then some (tau t, s1) else none
   | f :: _ =>
     let i := f.arg
     let c := getCb s i
@@ -140,7 +143,7 @@ def stepThr (cfg : Config) (s : St) (t : Nat) : Option (Lbl × St) :=
       let s1 := setCb s i { c with inList := true }
       some (tau t, goto { s1 with list := i :: s1.list } t 3)
     | 0, 3 => some (tau t, goto { s with locked := false } t 4)   -- unlock(0)
-    | 0, 4 => some (ev t s!"reg{i}.end", pop s t)
+    | 0, 4 => some (ev t s!"reg{i}.end", pop (setCb s i { c with regd := true }) t)
     -- ---------------- deregister(i): destructor of inplace_stop_callback
     | 1, 0 =>
       if c.srcNull then some (tau t, goto s t 9)
@@ -249,7 +252,7 @@ def b2n (b : Bool) : Nat := if b then 1 else 0
 
 def encFrame (f : Frame) : List Nat := [f.kind, f.arg, f.pc]
 def encCb (c : Cb) : List Nat :=
-  [b2n c.inList, b2n c.completed, b2n c.srcNull, b2n c.remPtr, b2n c.remFlag, c.runs, c.runner, b2n c.freed, b2n c.sawStop, b2n c.unlinked]
+  [b2n c.inList, b2n c.completed, b2n c.srcNull, b2n c.remPtr, b2n c.remFlag, c.runs, c.runner, b2n c.freed, b2n c.sawStop, b2n c.unlinked, b2n c.regd]
 def encThr (t : Thr) : List Nat := t.ip :: t.stack.length :: t.stack.flatMap encFrame
 
 def encSt (s : St) : List Nat :=
@@ -263,9 +266,9 @@ def decFrames : Nat → List Nat → List Frame × List Nat
 
 def decCbs : Nat → List Nat → List Cb × List Nat
   | 0, r => ([], r)
-  | n+1, a :: b :: c :: d :: e :: f :: g :: h :: i :: j :: r =>
+  | n+1, a :: b :: c :: d :: e :: f :: g :: h :: i :: j :: k :: r =>
     let (cs, r') := decCbs n r
-    (⟨a == 1, b == 1, c == 1, d == 1, e == 1, f, g, h == 1, i == 1, j == 1⟩ :: cs, r')
+    (⟨a == 1, b == 1, c == 1, d == 1, e == 1, f, g, h == 1, i == 1, j == 1, k == 1⟩ :: cs, r')
   | _, r => ([], r)
 
 def decThrs : Nat → List Nat → List Thr × List Nat
@@ -292,7 +295,7 @@ def decSt (l : List Nat) : St :=
     | _ => ⟨false, false, [], 0, [], [], 0, 0, 99⟩
   | _ => ⟨false, false, [], 0, [], [], 0, 0, 99⟩
 
-def coded : Coded St := { enc := fun s => packNats 16 (encSt s), dec := fun n => decSt (unpackNats 16 200 n), M := 16381, W := 400 }
+def coded : Coded St := { enc := fun s => packNats 16 (encSt s), dec := fun n => decSt (unpackNats 16 200 n), M := 16381, W := 420 }
 
 /-! ### the scenario configurations (mirrored one-to-one by harness/rt/scn_c03.cpp) -/
 
@@ -310,8 +313,15 @@ def cfgRegAfterStop : Config := ⟨[[.waitAll], [.stop], [.reg 0, .dereg 0]], [.
 /-- two callbacks owned by two threads, one requester (cb1 is cleaned up by T0 at the end). -/
 def cfgTwoOwners : Config := ⟨[[.stop, .waitAll, .deregIfLive 1], [.reg 0, .dereg 0], [.reg 1]], [.none, .none]⟩
 
+/-- a second, late request_stop() caller arrives while the first is inside the callback, and then
+    deregisters that callback (it must wait for the callback to finish) -/
+def cfgLateStopDereg : Config := ⟨[[.reg 0, .waitAll], [.waitReg 0, .stop], [.waitReg 0, .stop, .dereg 0]], [.none]⟩
+/-- two request_stop() callers and a callback that destroys its own registration -/
+def cfgLateStopSelfDereg : Config := ⟨[[.reg 0, .waitAll, .deregIfLive 0], [.waitReg 0, .stop], [.waitReg 0, .stop]], [.deregSelf]⟩
+
 def configs : List (String × Config) :=
   [("race", cfgRace), ("two_stops", cfgTwoStops), ("self_dereg", cfgSelfDereg),
-   ("dereg_other", cfgDeregOther), ("reg_after_stop", cfgRegAfterStop), ("two_owners", cfgTwoOwners)]
+   ("dereg_other", cfgDeregOther), ("reg_after_stop", cfgRegAfterStop), ("two_owners", cfgTwoOwners),
+   ("late_stop_dereg", cfgLateStopDereg), ("late_stop_self_dereg", cfgLateStopSelfDereg)]
 
 end Unifex.Proto.StopSource
